@@ -1186,3 +1186,54 @@ func orderTag(o []int) string {
 
 func VerifC12SubmitQuick()    { verifC12Submit(2) }
 func VerifC12SubmitThorough() { verifC12Submit(3) }
+
+// ---------------------------------------------------------------- C12 (locking selections)
+
+// verifC12Select: T concurrent SelectUtxos(A, amount, needLock) calls with arbitrary amounts over an
+// address holding two outputs (4 and 5), under every interleaving of the synchronisation operations
+// within the preemption bound: no output is handed to two selectors, a successful selection covers
+// the amount it was asked for, and no call deadlocks.
+func verifC12Select(T int) {
+	e := vkit.NewEnv("c12s", vkit.Genesis("0", "9", "5"), nil)
+	s := e.NewState("live")
+	vrt.Assert(s.Play(e.Root.Blockid) == nil, "genesis-plays")
+	t1 := vkit.Tx("t1", []*protos.TxInput{vkit.In(e.RootTx.Txid, 0, "A", big.NewInt(9))}, []*protos.TxOutput{vkit.Out("A", big.NewInt(4), 0), vkit.Out("A", big.NewInt(5), 0)})
+	b1 := vkit.Block(e.Root.Blockid, 1, []*pb.Transaction{vkit.Coinbase("cb1", "M", []byte{7}), t1})
+	vrt.Assert(e.L.ConfirmBlock(b1, false).Succ && s.Play(b1.Blockid) == nil, "prior-state-built")
+	need := make([]*big.Int, T)
+	for t := range need {
+		need[t] = big.NewInt(vrt.Int("amount", 1, 9))
+	}
+	got := make([][]*protos.TxInput, T)
+	sums := make([]*big.Int, T)
+	errs := make([]error, T)
+	var wg sync.WaitGroup
+	vrt.ExploreSchedules(true)
+	for t := 0; t < T; t++ {
+		wg.Add(1)
+		go func(t int) {
+			defer wg.Done()
+			got[t], _, sums[t], errs[t] = s.SelectUtxos("A", need[t], true, false)
+		}(t)
+	}
+	wg.Wait()
+	vrt.ExploreSchedules(false)
+	handed := map[string]int{}
+	nok := 0
+	for t := 0; t < T; t++ {
+		if errs[t] != nil {
+			continue
+		}
+		nok++
+		vrt.Assert(sums[t] != nil && sums[t].Cmp(need[t]) >= 0, "successful-selection-covers-the-amount")
+		for _, in := range got[t] {
+			k := string(in.RefTxid) + "/" + string([]byte{byte('0' + in.RefOffset)})
+			handed[k]++
+			vrt.Assert(handed[k] == 1, "locked-output-is-never-handed-to-two-selectors")
+		}
+	}
+	vrt.Cover("two-selections-succeed", nok >= 2)
+	vrt.Cover("a-selection-is-refused", nok < T)
+}
+
+func VerifC12SelectQuick() { verifC12Select(2) }
